@@ -20,6 +20,7 @@ VERIF = os.path.dirname(os.path.dirname(os.path.abspath(__file__)))
 LEAN = os.path.join(VERIF, "lean")
 REPO = os.environ.get("COOLER_REPO", "/repo")
 DRIVER = os.path.join(LEAN, ".lake", "build", "bin", "driver")
+OUT = os.environ.get("VERIF_OUT", VERIF)  # evidence/ and replays/ go here (scratch runs redirect it)
 ALLOWED_AXIOMS = {"propext", "Classical.choice", "Quot.sound"}
 FORBIDDEN = ("sorry", "admit", "native_decide", "bv_decide", "implemented_by", "unsafe ", "maxHeartbeats 0")
 
@@ -73,20 +74,46 @@ def _strip_comments(src: str) -> str:
     return "".join(out)
 
 
-def ensure_lean():
-    """lake build (kernel re-checks what changed), forbidden-token grep, axiom audit (cached per source hash).
-    Returns the audit: list of {module, name, axioms}."""
+AUDIT_TEMPLATE = """import Lean
+import CoolerModel.Props.{pid}
+open Lean Elab Command
+run_cmd do
+  let env ← getEnv
+  let mods := env.header.moduleNames
+  let mut out : Array String := #[]
+  for (name, ci) in env.constants.map₁.toList do
+    match ci with
+    | .thmInfo _ =>
+      match env.getModuleIdxFor? name with
+      | some idx =>
+        let m := mods[idx.toNat]!
+        if (`CoolerModel.Props).isPrefixOf m && !name.isInternal then
+          let axs ← Lean.collectAxioms name
+          let j := Json.mkObj [("module", Json.str m.toString), ("name", Json.str name.toString),
+            ("axioms", Json.arr (axs.map (fun a => Json.str a.toString)))]
+          out := out.push j.compress
+      | none => pure ()
+    | _ => pure ()
+  for l in out.qsort (· < ·) do
+    IO.println l
+"""
+
+
+def ensure_lean(pid):
+    """`lake build` of the driver and of the property's theorem module (the kernel re-checks whatever
+    changed), forbidden-token grep over all Lean sources, axiom audit of the property's theorems
+    (cached per source hash).  Returns (audit rows, seconds)."""
     t0 = time.time()
     lock = os.path.join(LEAN, ".lake-verif.lock")
     import fcntl
     with open(lock, "w") as lf:
         fcntl.flock(lf, fcntl.LOCK_EX)
-        r = subprocess.run(["lake", "build"], cwd=LEAN, capture_output=True, text=True)
+        r = subprocess.run(["lake", "build", "driver", f"CoolerModel.Props.{pid}"], cwd=LEAN, capture_output=True, text=True)
         if r.returncode != 0:
             sys.stderr.write(r.stdout[-4000:] + r.stderr[-4000:])
             raise Infra("lake build failed")
         for p in _lean_sources():
-            if not p.endswith(".lean") or os.path.basename(p) == "Audit.lean":
+            if not p.endswith(".lean") or os.path.basename(p).startswith("Audit"):
                 continue
             code = _strip_comments(open(p).read())
             for tok in FORBIDDEN:
@@ -96,9 +123,14 @@ def ensure_lean():
                 if line.startswith("axiom "):
                     raise Infra(f"axiom declared in {p}")
         hh = lean_hash()
-        cache = os.path.join(LEAN, ".lake", f"audit-{hh}.json")
+        adir = os.path.join(LEAN, ".lake", "audit")
+        os.makedirs(adir, exist_ok=True)
+        cache = os.path.join(adir, f"{pid}-{hh}.json")
         if not os.path.exists(cache):
-            r = subprocess.run(["lake", "env", "lean", "Audit.lean"], cwd=LEAN, capture_output=True, text=True)
+            src = os.path.join(adir, f"Audit_{pid}.lean")
+            with open(src, "w") as f:
+                f.write(AUDIT_TEMPLATE.format(pid=pid))
+            r = subprocess.run(["lake", "env", "lean", src], cwd=LEAN, capture_output=True, text=True)
             if r.returncode != 0:
                 sys.stderr.write(r.stdout[-4000:] + r.stderr[-4000:])
                 raise Infra("axiom audit failed")
@@ -106,6 +138,9 @@ def ensure_lean():
             with open(cache + ".tmp", "w") as f:
                 json.dump(rows, f)
             os.replace(cache + ".tmp", cache)
+            for old in os.listdir(adir):
+                if old.startswith(pid + "-") and old.endswith(".json") and old != os.path.basename(cache):
+                    os.unlink(os.path.join(adir, old))
         audit = json.load(open(cache))
     return audit, time.time() - t0
 
@@ -115,7 +150,7 @@ def theorems_for(audit, pid):
     out = []
     for row in audit:
         mod = row["module"]
-        if mod.split(".")[-1].startswith(pid) and row["name"].startswith(f"Cooler.{pid}."):
+        if row["name"].startswith(f"Cooler.{pid}."):
             tail = row["name"].split(".")[-1]
             if tail.startswith("eq_") or tail.startswith("match_") or tail.startswith("proof_") or "._" in row["name"]:
                 continue
@@ -281,7 +316,7 @@ def load_findings():
 
 
 def write_evidence(pid, tier, seed, level, coverage, assumptions, wall, violations):
-    os.makedirs(os.path.join(VERIF, "evidence"), exist_ok=True)
+    os.makedirs(os.path.join(OUT, "evidence"), exist_ok=True)
     ev = {
         "property_id": pid,
         "tier": tier,
@@ -292,7 +327,7 @@ def write_evidence(pid, tier, seed, level, coverage, assumptions, wall, violatio
         "wall_s": round(wall, 2),
         "violations": violations,
     }
-    p = os.path.join(VERIF, "evidence", f"{pid}.json")
+    p = os.path.join(OUT, "evidence", f"{pid}.json")
     with open(p + ".tmp", "w") as f:
         json.dump(ev, f, indent=1, default=str)
     os.replace(p + ".tmp", p)
@@ -326,7 +361,7 @@ def main_check(pid, tier, seed, replay=None):
     t0 = time.time()
     mod = importlib.import_module(f"harness.{pid.lower()}")
     try:
-        audit, lean_s = ensure_lean()
+        audit, lean_s = ensure_lean(pid)
     except Infra as e:
         print(f"INFRA: {e}", file=sys.stderr)
         return 2
@@ -374,7 +409,7 @@ def main_check(pid, tier, seed, replay=None):
             violations.append((name, case, res))
 
     viol_lines = []
-    os.makedirs(os.path.join(VERIF, "replays"), exist_ok=True)
+    os.makedirs(os.path.join(OUT, "replays"), exist_ok=True)
     if violations:
         # group by check name; report the smallest case of each (after shrinking)
         by = {}
@@ -406,7 +441,7 @@ def main_check(pid, tier, seed, replay=None):
                 esc = escf(name, small, random.Random(seed)) if escf else None
                 if esc is None:
                     suffix = " no-failing-input-found"
-            path = os.path.join(VERIF, "replays", f"{pid}-{seed}-{k}.json")
+            path = os.path.join(OUT, "replays", f"{pid}-{seed}-{k}.json")
             rp = {"property": pid, "check": name, "level": kind, "case": small, "result": res,
                   "n_cases_failing": len(lst),
                   "what": getattr(mod, "DESCRIBE", {}).get(name, ""),
@@ -442,7 +477,7 @@ def main_check(pid, tier, seed, replay=None):
         "theorems": sorted(t["name"] for t in thms),
         "axioms_used": sorted({a for t in thms for a in t["axioms"]}),
         "correspondences": {u: run.evals[u] for u in units},
-        "checker_cmd": "cd lean && lake build && lake env lean Audit.lean  (then harness/" + pid.lower() + ".py against /repo/src)",
+        "checker_cmd": f"cd lean && lake build driver CoolerModel.Props.{pid} && lake env lean .lake/audit/Audit_{pid}.lean; then ./check {pid} {tier} (harness/{pid.lower()}.py against /repo/src)",
         "trusted_base": getattr(mod, "TRUSTED", []) + [
             "Lean 4.33.0 kernel", "axioms: " + ", ".join(sorted({a for t in thms for a in t["axioms"]}) or ["none"]),
             "correspondence harness harness/common.py + harness/" + pid.lower() + ".py and the JSON glue of lean/Driver.lean"],
